@@ -11,7 +11,8 @@ MATCHERS = {}
 
 def state_of(c):
     if c.is_valid:
-        return "valid %d %d %d" % tuple(c.rgb)
+        from proto import t3
+        return t3(c.rgb, "valid ", " ")
     return "invalid"
 
 
